@@ -371,7 +371,12 @@ func (w *arWorld) boundaryArg(t abi.Type, old interface{}) interface{} {
 		}
 		return v.Interface()
 	case abi.StringTy:
-		switch R.Intn(4) {
+		switch R.Intn(5) {
+		case 4: // the length bounds of names, symbols, domains, descriptions (vm/constants) and 255 / 256 / 257, +-1
+			M := []int{constants.PillarNameLengthMax, constants.TokenNameLengthMax, constants.TokenSymbolLengthMax, constants.TokenDomainLengthMax,
+				constants.ProjectNameLengthMax, constants.ProjectDescriptionLengthMax, constants.SporkNameMinLength, constants.SporkNameMaxLength,
+				constants.SporkDescriptionMaxLength, 256, 2 * constants.PillarNameLengthMax, 256 + constants.TokenSymbolLengthMax}[R.Intn(12)]
+			return strings.Repeat([]string{"a", "A", "7"}[R.Intn(3)], M-1+R.Intn(3))
 		case 0:
 			return ""
 		case 1:
@@ -382,11 +387,13 @@ func (w *arWorld) boundaryArg(t abi.Type, old interface{}) interface{} {
 			return old.(string) + "\x00"
 		}
 	case abi.BytesTy:
-		switch R.Intn(3) {
+		switch R.Intn(4) {
 		case 0:
 			return []byte{}
 		case 1:
 			return make([]byte, 255)
+		case 2: // digest / preimage length bounds and lengths that fit them only modulo 2^8
+			return make([]byte, []int{31, 32, 33, 63, 64, 65, 254, 256, 257, 256 + 32, 256 + 31, 512 + 32, 4096}[R.Intn(13)])
 		default:
 			return make([]byte, 1+R.Intn(64))
 		}
